@@ -652,7 +652,12 @@ pub fn run_scenario(sc: &Value, ex: &mut Exec) -> usize {
             "CGo" => {
                 sync_point = true;
                 let id = "flexi_logger-fs-cleanup";
-                if hh.wait_parked(id, std::time::Duration::from_millis(5000)).is_none() {
+                if !hh.sched_on.load(Ordering::SeqCst) {
+                    // (an earlier step of this scenario found the thread elsewhere than the specification says: the thread
+                    // runs freely from then on, the remaining steps are reported without waiting)
+                    "blocked:off".into()
+                } else if hh.wait_parked(id, std::time::Duration::from_millis(3000)).is_none() {
+                    hh.sched_off();
                     "blocked:not-parked".into()
                 } else {
                     let seen = hh.park_count(id);
@@ -663,12 +668,15 @@ pub fn run_scenario(sc: &Value, ex: &mut Exec) -> usize {
                         ev["at"] = json!("exit");
                         "ok".into()
                     } else {
-                        match hh.wait_new_park(id, seen, std::time::Duration::from_millis(5000)) {
+                        match hh.wait_new_park(id, seen, std::time::Duration::from_millis(3000)) {
                             Some(pt) => {
                                 ev["at"] = json!(pt);
                                 "ok".into()
                             }
-                            None => "blocked:no-park".into(),
+                            None => {
+                                hh.sched_off();
+                                "blocked:no-park".into()
+                            }
                         }
                     }
                 }
